@@ -9,7 +9,9 @@ if [ ! -d $wt ]; then git -C /repo worktree add --detach $wt HEAD >/dev/null 2>&
 cd $wt && git checkout -q --detach $(git -C /repo rev-parse HEAD) && git checkout -- . && git clean -fdq
 pk=$(grep -m1 "^package " $src/demo_test.go | awk '{print $2}')
 first=$(grep -m1 "^+++ b/" $src/patch.diff | sed 's/+++ b\///')
+[ -n "$DDIR" ] && pk=__override__
 case "$pk" in
+  __override__) ddir=$DDIR ;;
   integration_test) ddir=tests/integration ;;
   types) ddir=daemons/server/types/pricefeed ;;
   *) ddir=$(dirname $first) ;;
